@@ -124,6 +124,7 @@ def run(prog, run):
     r7(prog, run, dec)
     r8(prog, run, dec)
     r9(prog, run, enc)
+    r10(prog, run, dec)
 
 
 def r1(prog, run, enc, dec):
@@ -426,8 +427,53 @@ def r6(prog, run):
             b = f.binop(n['args'][0])
             if b and b[0] == '-':
                 pads.append((i, b))
-    if not pads:
-        raise AnalysisBroken('C14.R6: padding construction QByteArray(B - key.size(), 0) not found in generateHmac')
+    # the key preparation: which keys are hashed first (RFC 2104: exactly those longer than the block size B)
+    sel = []
+    for i, n in enumerate(f.nodes):
+        c = None
+        if n['k'] == 'cond':
+            c, a, b = n['c'], n['a'], n['b']
+            hashed = ['QCryptographicHash' in f.fmt(x) for x in (a, b)]
+        if c is None:
+            continue
+        bo = f.binop(f.skip(c))
+        if not bo or bo[0] not in ('<', '<=', '>', '>='):
+            continue
+        lt, rt = f.fmt(bo[1]), f.fmt(bo[2])
+        if '::size()' not in lt + rt or hashed[0] == hashed[1]:
+            continue
+        op = bo[0]
+        if '::size()' in rt:        # B <op> size  ->  size <flipped op> B
+            op = {'<': '>', '<=': '>=', '>': '<', '>=': '<='}[op]
+        # value of the condition for size == B
+        at_b = op in ('<=', '>=')
+        hashed_at_b = hashed[0] if at_b else hashed[1]
+        sel.append((i, op, hashed_at_b))
+    for b_ in f.blocks.values():
+        t = b_.get('term')
+        if t and t.get('k') == 'if' and 'cond' in t:
+            bo = f.binop(f.skip(t['cond']))
+            if bo and bo[0] in ('<', '<=', '>', '>=') and '::size()' in f.fmt(bo[1]) + f.fmt(bo[2]):
+                succ = [s_ for s_ in b_['succs']]
+                def hashes(bid):
+                    return bid is not None and any('QCryptographicHash' in f.fmt(e) for e in f.blocks[bid]['elems'])
+                hs = [hashes(x) for x in succ[:2]]
+                if len(hs) == 2 and hs[0] != hs[1]:
+                    op = bo[0]
+                    if '::size()' in f.fmt(bo[2]):
+                        op = {'<': '>', '<=': '>=', '>': '<', '>=': '<='}[op]
+                    at_b = op in ('<=', '>=')
+                    sel.append((t['cond'], op, hs[0] if at_b else hs[1]))
+    for i, op, hashed_at_b in sel:
+        run.instance(rid)
+        if hashed_at_b:
+            run.violation(rid, 'generateHmac#block-size-key-hashed', f.loc(i),
+                          'a key of exactly the block size is replaced by its hash (the key preparation tests "size %s B"): RFC 2104 hashes only keys longer than the block, so the '
+                          'HMAC - and with it MESSAGE-INTEGRITY - differs from the standard value for 64-byte keys' % op)
+        else:
+            run.ok(rid, f.loc(i), 'keys of exactly the block size are used as they are (size %s B selects the hash)' % op)
+    if not pads and not sel:
+        raise AnalysisBroken('C14.R6: neither a key preparation (size compared with the block size) nor a padding construction found in generateHmac')
     for i, b in pads:
         sub = f.nodes[f.resolve(b[2])]
         ok = False
@@ -638,3 +684,43 @@ def r9(prog, run, enc):
         run.ok(rid, ea.loc(), 'family decided by QHostAddress::protocol()')
     else:
         raise AnalysisBroken('C14.R9: the address family decision of encodeAddress has a form the checker does not know')
+
+
+# --------------------------------------------------------------------------- R10: decoded text values are stored as received
+_TEXT_CONVERSIONS = ('QString::trimmed', 'QString::simplified', 'QString::toLower', 'QString::toUpper', 'QString::toCaseFolded', 'QString::normalized', 'QString::left',
+                     'QString::mid', 'QString::chopped', 'QString::section', 'QString::remove', 'QString::replace', 'QByteArray::trimmed', 'QByteArray::simplified',
+                     'QByteArray::toLower', 'QByteArray::toUpper', 'QByteArray::chopped', 'QByteArray::left', 'QByteArray::mid')
+
+
+def r10(prog, run, dec):
+    rid = run.rule('C14.R10', 'decode stores the text attributes (user name, realm, software, reason phrase, nonce ...) as the bytes say: between the raw read and the member no trimming, '
+                              'case folding or cutting takes place (encode writes the member as it is, and the long-term key is derived from the realm as received)', floor=4)
+    n_w = 0
+    for i, n in list(dec.all_nodes('assign')) + [(i, n) for i, n in dec.calls() if n.get('op') == '=' and len(n.get('opargs', [])) == 2]:
+        l = dec.nodes[dec.skip(n['l'] if n['k'] == 'assign' else n['opargs'][0])]
+        r = n['r'] if n['k'] == 'assign' else n['opargs'][1]
+        if l['k'] != 'mem' or not any(x in (l.get('t') or '') for x in ('QString', 'QByteArray')):
+            continue
+        n_w += 1
+        run.instance(rid)
+        conv = None
+        stack = [r]
+        seen = set()
+        while stack and conv is None:
+            x = stack.pop()
+            for j in dec.walk(x):
+                m = dec.nodes[j]
+                if m['k'] == 'call' and (dec.cname(m) or '') in _TEXT_CONVERSIONS:
+                    conv = j
+                    break
+                if m['k'] == 'var' and m.get('vk') == 'local' and m.get('decl') not in seen:
+                    seen.add(m.get('decl'))
+                    stack += [d for d in dec.all_defs(m.get('decl')) if d is not None]
+        if conv is not None:
+            run.violation(rid, 'decode#converted-text:%s' % l['name'], dec.loc(i),
+                          'decode stores %s after %s: a value with blanks at the edges / other case does not decode to what was encoded, and keys derived from it differ from the '
+                          'peer\'s' % (l['name'], dec.fmt(conv, inline=False)[:60]))
+        else:
+            run.ok(rid, dec.loc(i), '%s stored as read' % l['name'], nontrivial=False)
+    if n_w < 4:
+        raise AnalysisBroken('C14.R10: only %d text members written in decode' % n_w)
